@@ -267,6 +267,16 @@ def _patch_indices(np, rng, B, roi, obj_shape, wrap=True, repeats=True):
     return (row * W + col).astype(np.int64)
 
 
+class _RealDT(dict):
+    def __missing__(self, k):
+        import torch
+
+        return {torch.complex64: torch.float32, torch.complex128: torch.float64}.get(k, k)
+
+
+_REAL_DT = _RealDT()
+
+
 def rt_patches(inp):
     """sum_patches(_base) / _get_obj_patches: scatter spec, gather spec, scatter = adjoint of gather."""
     m = _mods()
@@ -289,6 +299,17 @@ def rt_patches(inp):
             problems.append(f"sum_patches({'complex' if cplx else 'real'})[j] != sum of p[n] over idx[n]==j (max dev {np.abs(got - want).max():.3e})")
         if np.iscomplexobj(got) != cplx:
             problems.append(f"sum_patches complexness {np.iscomplexobj(got)} for complex={cplx} patches")
+        for dt in ((torch.complex64, torch.complex128) if cplx else (torch.float32, torch.float64)):
+            try:
+                gd = m.pu.sum_patches(torch.tensor(p).to(dt), tidx, (H, W)).dtype
+                gb_d = m.pu.sum_patches_base(torch.tensor(p.real.copy()).to(_REAL_DT[dt]), tidx, (H, W)).dtype
+            except Exception as e:  # an exception of the real function is a reported failure, not a checker fault
+                problems.append(f"sum_patches raised {type(e).__name__}: {e} for {dt} patches")
+                continue
+            if gd != dt:
+                problems.append(f"sum_patches returns {gd} for {dt} patches (narrowed accumulator: not the exact adjoint in the input's precision)")
+            if gb_d != _REAL_DT[dt]:
+                problems.append(f"sum_patches_base returns {gb_d} for {_REAL_DT[dt]} patches")
         gb = m.pu.sum_patches_base(torch.tensor(p.real.copy()), tidx, (H, W)).numpy()
         if np.abs(gb - want.real).max() > 1e-10:
             problems.append("sum_patches_base(real part) differs from the scatter spec")
@@ -666,3 +687,24 @@ def fam_backward(tier="quick", seed=0):
         for M in (1, 2):
             for roi in ((2, 2), (3, 4), (5, 4)):
                 yield dict(S=S, M=M, B=2, roi=roi, tilt=(0.0, 0.0) if (S + M) % 2 else (2.0, -3.0), seed=seed + 100 * S + 10 * M + roi[0] + roi[1])
+
+
+# ------------------------------------------------------------------------------------------------ oracles never crash
+
+
+def safe(rt):
+    """An unexpected exception from the REAL function is a failure the oracle reports (violated=True), not a checker fault."""
+    import functools
+
+    @functools.wraps(rt)
+    def wrapped(inp):
+        try:
+            return rt(inp)
+        except Exception as e:  # noqa: BLE001
+            return dict(violated=True, observed=f"real code raised {type(e).__name__}: {e}"[:400], expected="no exception", kinds=["other"])
+
+    return wrapped
+
+
+for _n in [n for n in list(globals()) if n.startswith("rt_")]:
+    globals()[_n] = safe(globals()[_n])
